@@ -38,18 +38,29 @@ pub struct SimRule {
     pub allow_unwind: bool,
 }
 
-pub fn fields_digest(fields: &BTreeMap<String, TokenType>) -> (Vec<(String, Val)>, u64) {
+pub fn fields_vals(fields: &BTreeMap<String, TokenType>) -> Vec<(String, Val)> {
     let mut v = Vec::new();
-    let mut s = String::new();
     for (k, t) in fields {
         let val = match t {
             TokenType::Text(txt) => Val::Other(format!("Text({})", txt.to_lowercase())),
             other => token_val(other),
         };
-        s.push_str(&format!("{}={:?};", k, val));
         v.push((k.clone(), val));
     }
-    (v, fnv64(s.as_bytes()))
+    v
+}
+
+/// digest of field values (sorted by field name, as a BTreeMap iterates)
+pub fn digest_vals(vals: &[(String, Val)]) -> u64 {
+    let mut s = String::new();
+    for (k, val) in vals { s.push_str(&format!("{}={:?};", k, val)); }
+    fnv64(s.as_bytes())
+}
+
+pub fn fields_digest(fields: &BTreeMap<String, TokenType>) -> (Vec<(String, Val)>, u64) {
+    let v = fields_vals(fields);
+    let d = digest_vals(&v);
+    (v, d)
 }
 
 pub fn decide(spec: &RuleSpec, salt: u64, digest: u64) -> Decision {
